@@ -115,3 +115,36 @@ def fine_channel_order(vc):
     # the per-column value clause (column c*fftlength + shifted bin = |DFT bin|^2 summed over int_factor spectra and both
     # polarisations) stayed undecided within the solver budget (nested reshapes/transposes with symbolic strides): it is
     # NOT claimed deductively; the bounded native run checks it against a direct DFT evaluation
+
+
+@contract('C07', 'chirp_follows_f_start_plus_drift_t', functions=['setigen.voltage.data_stream:DataStream.add_constant_signal', 'setigen.voltage.data_stream:DataStream.get_samples'])
+def chirp_law(vc):
+    """A stream holding one constant signal: sample at time t is level*cos(theta(t) +- phase) with
+    theta(t) = +-2 pi ((f_start - fch1) t + drift t^2 / 2): the baseband phase whose instantaneous frequency is the distance of the sky
+    frequency f_start + drift*t from fch1, for both orientations (cos even: the overall sign is not observable in a real voltage).
+    For a descending band the code must use the *same* sign for the offset and the drift term, which is what fails when only one is flipped."""
+    DSK = 'setigen.voltage.data_stream:DataStream'
+    asc = bool(vc.choose(2, 'ascending'))
+    cls = classref(vc, DSK)
+    sr, fch1, t0 = Real('sample_rate'), Real('fch1'), Real('t0')
+    vc.assume(sr > 0)
+    s = vc.interp.call(cls, [], dict(sample_rate=sr, fch1=fch1, ascending=asc, t_start=t0, seed=Int('seed')))
+    f0, dr, lv, ph = Real('f_start'), Real('drift'), Real('level'), Real('phase')
+    vc.interp.call(vc.interp.getattr(s, 'add_constant_signal'), [f0, dr, lv], dict(phase=ph))
+    n, k = Int('n'), Int('k')
+    vc.assume(n >= 1)
+    out = vc.run(lambda: vc.interp.call(vc.interp.getattr(s, 'get_samples'), [n], {}))
+    vc.cover('reachable')
+    vc.ensure('C07/chirp/exc/none', out.ok)
+    if not out.ok:
+        return
+    t = t0 + k / sr
+    theta = 2 * L.PI * ((f0 - fch1) * t + dr * t * t / 2)
+    cands = [theta + ph, -theta + ph]
+    for c in cands:                       # cos is even (trusted trigonometric fact, instantiated at the candidate arguments)
+        vc.assume(eq(L.UF_COS(-c), L.UF_COS(c)))
+    val = out.value.at((k,))
+    vc.ensure('C07/chirp/post/instantaneous-frequency-follows-f_start+drift*t-for-both-orientations',
+              Implies(And(k >= 0, k < n), Or(*[eq(val, lv * L.UF_COS(c)) for c in cands])))
+    # orientation must matter only through the overall sign: the offset term and the drift term carry the same sign
+    vc.ensure('C07/chirp/post/length', eq(out.value.shape[0], n))
